@@ -9,10 +9,11 @@ CONSTANTS
     Base = 0
     SpanLens = {}
     DBRPs = {"db.rp", "db.rp2", "other.rp", ".", "sub"}
-    SourceLists = {}
+    ChildLists = {}
     WrapUser = TRUE
     TruncNext = TRUE
     CloneSharesGB = TRUE
+    FluxEndsCollection = FALSE
     Strict = "enforce"
 INVARIANTS
     OnlyDeclaredDBRPs
